@@ -21,12 +21,12 @@
 /* ghosts named by the loop invariants of collections.loops.json (spliced into lowered.c, hence declared before it) */
 struct VariantData;
 static struct VariantData *g_store;                  /* big store: g_cnt slots, id == index */
-static uint64_t g_cnt, g_len, g_w, g_u;
+static uint64_t g_cnt, g_len, g_w, g_u, g_idx0;
 static unsigned *g_dist, *g_rank;                    /* g_dist: steps to the witness g_w (DIST_NONE: not before it); g_rank: steps to the end */
 static uint64_t *g_pos;                              /* position in the list */
 static _Bool *g_member;                              /* slot belongs to the list */
 static unsigned g_w_frees, g_u_frees, g_free_calls;
-static void *g_u_bits; static unsigned char g_u_type; static uint64_t g_u_next;
+static unsigned long g_u_bits; static unsigned char g_u_type; static uint64_t g_u_next;
 #define DIST_NONE 0xFFFFFFFFu
 #ifndef BIG_MAX
 #define BIG_MAX 0xFFFFFFFFull
@@ -109,7 +109,7 @@ static _Bool unchanged_except(unsigned mask) {
   return ok;
 }
 
-/* contract of ResourceManager::getVariant (proved: unit resmgr, obligation rm_getVariant, over MemoryPoolList::getSlot whose
+/* contract of ResourceManager::getVariant (proved: unit coll_resmgr, obligation rm_get, over MemoryPoolList::getSlot whose
  * own contract is poollist/list_getSlot_*): the slot designated by the id, null for NULL_SLOT; read-only. */
 VD *ResourceManager__getVariant(struct ResourceManager *self, slotid_t id) {
   CHECK(self == &g_rm, "getVariant is asked on the document's resource manager");
@@ -119,8 +119,8 @@ VD *ResourceManager__getVariant(struct ResourceManager *self, slotid_t id) {
   CHECK(i >= 0, "getVariant receives the id of an existing slot");
   return i >= 0 ? &g_slots[i] : (VD *)0;
 }
-/* contract of ResourceManager::freeVariant (proved: unit resmgr, obligation rm_freeVariant; VariantData::clear: unit variant,
- * obligations vclear_*): the slot's resources are released and the slot goes to the free list -- from then on its bytes are
+/* contract of ResourceManager::freeVariant (proved: unit coll_resmgr, obligation rm_free; VariantData::clear: unit coll_variant,
+ * obligation vclear): the slot's resources are released and the slot goes to the free list -- from then on its bytes are
  * arbitrary (the free-list link overwrites it), so the stub havocs it; no other slot of the enclosing list is written. */
 void ResourceManager__freeVariant(struct ResourceManager *self, VSlot v) {
   CHECK(self == &g_rm, "freeVariant is asked on the document's resource manager");
@@ -166,7 +166,7 @@ static _Bool list_is(const struct CollectionData *c, const unsigned *e, unsigned
 /* ===================================================================================================================
  * unit coll_core: CollectionData / CollectionIterator, real code, stubs getVariant / freeVariant / VariantData::nesting */
 #ifdef U_CORE
-/* appendOne(slot) with next(slot) == NULL_SLOT (what allocVariant hands out: rm_allocVariant) */
+/* appendOne(slot) with next(slot) == NULL_SLOT (what allocVariant hands out: coll_resmgr/rm_alloc) */
 void h_appendOne(void) {
   mk_store(0);
   struct CollectionData c;
@@ -464,6 +464,1002 @@ void h_clear_b(void) {
 #endif
 
 /* ===================================================================================================================
+ * unit coll_remove: removeOne / removePair from an ARBITRARY list (U): getPreviousSlot replaced by its contract
+ * (proved for any list length: coll_loops/getPreviousSlot_anylen; bounded cross-check with the real callee: coll_core/remove*_le4).
+ * Local state: target = entry 0, its predecessor = entry 1 (if any), the value of a pair = entry 2; everything else arbitrary. */
+#ifdef U_REMOVE
+static VSlot g_prev_ret;
+static VD *g_prev_target;
+static unsigned g_prev_calls;
+/* contract of getPreviousSlot(target) for a target linked in the list: the null slot iff target is the head, otherwise the
+ * (address,id) of the slot whose next designates target; read-only */
+VSlot CollectionData__getPreviousSlot(struct CollectionData *self, VD *target, struct ResourceManager *resources) {
+  CHECK(resources == &g_rm, "getPreviousSlot is asked on the document's resource manager");
+  CHECK(target == g_prev_target, "getPreviousSlot is asked for the slot being removed");
+  g_prev_calls++;
+  return g_prev_ret;
+}
+static void mk_remove_state(struct CollectionData *c, _Bool has_pred, unsigned last /* entry whose next decides tail_ */) {
+  mk_store(1);
+  __CPROVER_assume(g_slots[last].next_ != g_id[0] && g_slots[last].next_ != g_id[1] && g_slots[last].next_ != g_id[2]); /* acyclic */
+  if (has_pred) {
+    g_slots[1].next_ = g_id[0];
+    c->head_ = (slotid_t)in_u32();
+    __CPROVER_assume(idx_of(c->head_) >= 0 && c->head_ != g_id[0] && c->head_ != g_id[2]);
+    g_prev_ret.ptr_ = &g_slots[1];
+    g_prev_ret.id_ = g_id[1];
+  } else {
+    c->head_ = g_id[0];
+    g_prev_ret.ptr_ = (VD *)0;
+    g_prev_ret.id_ = NSLOT;
+  }
+  g_prev_target = &g_slots[0];
+  /* WF: tail_ designates the slot whose next is NULL_SLOT */
+  if (g_slots[last].next_ == NSLOT) c->tail_ = g_id[last];
+  else { c->tail_ = (slotid_t)in_u32(); __CPROVER_assume(idx_of(c->tail_) >= 3); }
+}
+void h_removeOne_u(void) {
+  struct CollectionData c;
+  _Bool has_pred = in_bool();
+  mk_remove_state(&c, has_pred, 0);
+  struct CollectionData c0 = c;
+  slotid_t succ = g_slots[0].next_;
+  struct CollectionIterator it;
+  it.slot_ = &g_slots[0]; it.currentId_ = g_id[0]; it.nextId_ = succ;
+  snapshot();
+  CollectionData__removeOne(&c, it, &g_rm);
+  COVER(has_pred && succ == NSLOT); COVER(has_pred && succ != NSLOT); COVER(!has_pred && succ == NSLOT); COVER(!has_pred && succ != NSLOT);
+  if (has_pred) {
+    CHECK(g_slots[1].next_ == succ, "removeOne: the predecessor now points to next(target)");
+    CHECK(c.head_ == c0.head_, "removeOne: head_ unchanged when the target has a predecessor");
+  } else {
+    CHECK(c.head_ == succ, "removeOne: head_ now designates next(target) when the target was first");
+  }
+#ifdef CANARY_REMOVE_ONE_U
+  CHECK(c.tail_ == (succ == NSLOT ? (has_pred ? g_id[1] : NSLOT) : c0.tail_) && !(has_pred && succ == NSLOT), "removeOne: tail_ updated iff the target was last (to the predecessor, or NULL_SLOT)");
+#else
+  CHECK(c.tail_ == (succ == NSLOT ? (has_pred ? g_id[1] : NSLOT) : c0.tail_), "removeOne: tail_ updated iff the target was last (to the predecessor, or NULL_SLOT)");
+#endif
+  CHECK((c.head_ == NSLOT) == (c.tail_ == NSLOT), "list stays well formed: head_ and tail_ are null together");
+  CHECK(g_free_calls == 1 && g_freed[0], "C06: the target is released exactly once and nothing else is");
+  CHECK(unchanged_except(1u | (has_pred ? 2u : 0)), "removeOne writes only next(predecessor) (target goes to the free list)");
+  CHECK(!has_pred || slot_same_value(&g_slots[1], &g_before[1]), "the predecessor keeps its value");
+  CHECK(g_prev_calls == 1, "the predecessor is looked up once");
+}
+void h_removePair_u(void) {
+  struct CollectionData c;
+  _Bool has_pred = in_bool();
+  mk_remove_state(&c, has_pred, 2);
+  g_slots[0].next_ = g_id[2]; /* key -> value */
+  struct CollectionData c0 = c;
+  slotid_t succ = g_slots[2].next_;
+  struct CollectionIterator it;
+  it.slot_ = &g_slots[0]; it.currentId_ = g_id[0]; it.nextId_ = g_id[2];
+  snapshot();
+  CollectionData__removePair(&c, it, &g_rm);
+  COVER(has_pred && succ == NSLOT); COVER(has_pred && succ != NSLOT); COVER(!has_pred && succ == NSLOT); COVER(!has_pred && succ != NSLOT);
+  if (has_pred) {
+    CHECK(g_slots[1].next_ == succ, "removePair: the predecessor now points to what followed the value");
+    CHECK(c.head_ == c0.head_, "removePair: head_ unchanged when the key has a predecessor");
+  } else {
+    CHECK(c.head_ == succ, "removePair: head_ now designates what followed the value");
+  }
+#ifdef CANARY_REMOVE_PAIR_U
+  CHECK(c.tail_ == (succ == NSLOT ? (has_pred ? g_id[1] : NSLOT) : c0.tail_) && !(!has_pred && succ != NSLOT), "removePair: tail_ updated iff the pair was last");
+#else
+  CHECK(c.tail_ == (succ == NSLOT ? (has_pred ? g_id[1] : NSLOT) : c0.tail_), "removePair: tail_ updated iff the pair was last");
+#endif
+  CHECK((c.head_ == NSLOT) == (c.tail_ == NSLOT), "list stays well formed: head_ and tail_ are null together");
+  CHECK(g_free_calls == 2 && g_freed[0] && g_freed[2], "C06: key and value slots are released exactly once each and nothing else is");
+  CHECK(unchanged_except(1u | 4u | (has_pred ? 2u : 0)), "removePair writes only next(predecessor)");
+  CHECK(!has_pred || slot_same_value(&g_slots[1], &g_before[1]), "the predecessor keeps its value");
+}
+void h_remove_done_u(void) {
+  struct CollectionData c;
+  mk_remove_state(&c, in_bool(), 0);
+  struct CollectionData c0 = c;
+  struct CollectionIterator it;
+  it.slot_ = (VD *)0; it.currentId_ = (slotid_t)in_u32(); it.nextId_ = (slotid_t)in_u32();
+  snapshot();
+  _Bool pair = in_bool();
+  if (pair) CollectionData__removePair(&c, it, &g_rm);
+  else CollectionData__removeOne(&c, it, &g_rm);
+  COVER(pair); COVER(!pair);
+#ifdef CANARY_REMOVE_DONE
+  CHECK(c.head_ == c0.head_ && c.tail_ == c0.tail_ && unchanged_except(0) && g_free_calls == 0 && g_getv_calls == 0 && !pair, "removing at a done iterator changes nothing");
+#else
+  CHECK(c.head_ == c0.head_ && c.tail_ == c0.tail_ && unchanged_except(0) && g_free_calls == 0 && g_getv_calls == 0, "removing at a done iterator changes nothing");
+#endif
+}
+#endif
+
+/* ===================================================================================================================
+ * allocVariant by contract, shared by the array and object units.
+ * contract of ResourceManager::allocVariant (proved: unit coll_resmgr, obligation rm_alloc, over MemoryPoolList::allocSlot whose
+ * contract is poollist_alloc + poollist/list_*): either the null slot, or the (address,id) of a slot that is not linked
+ * anywhere, freshly constructed: type Null, next NULL_SLOT.  May fail at EVERY call (= every fault schedule, C05).
+ * Fresh slots are handed out from the top of the store (entries NS-1, NS-2, ...), which the harnesses keep out of the list. */
+#if defined(U_ARRAY) || defined(U_OBJECT)
+static unsigned g_alloc_calls, g_alloc_ok;
+static _Bool g_alloc_fail_seen;
+VSlot ResourceManager__allocVariant(struct ResourceManager *self) {
+  VSlot r;
+  CHECK(self == &g_rm, "allocVariant is asked on the document's resource manager");
+  g_alloc_calls++;
+  if (in_bool() || g_alloc_ok >= 3) {
+    g_alloc_fail_seen = 1;
+    r.ptr_ = (VD *)0;
+    r.id_ = NSLOT;
+    return r;
+  }
+  unsigned e = NS - 1 - g_alloc_ok;
+  g_alloc_ok++;
+  havoc_slot(&g_slots[e]); /* whatever the slot held before (free-list link) ... */
+  g_slots[e].type_ = VT_NULL; /* ... a VariantData is constructed in it */
+  g_slots[e].next_ = NSLOT;
+  g_before[e] = g_slots[e];
+  r.ptr_ = &g_slots[e];
+  r.id_ = g_id[e];
+  return r;
+}
+#endif
+
+/* ===================================================================================================================
+ * unit coll_array: ArrayData (real appendOne / createIterator / next inlined; allocVariant, getVariant, freeVariant,
+ * removeOne and JsonVariant::set by contract) */
+#ifdef U_ARRAY
+/* arbitrary local state of a non-empty or empty array: head = entry 0, tail = entry 0 or 1 (see h_appendOne) */
+static unsigned mk_array_local(struct ArrayData *a, _Bool *empty) {
+  mk_store(0);
+  *empty = in_bool();
+  unsigned b = in_bool() ? 1 : 0;
+  __CPROVER_assume(g_slots[b].next_ == NSLOT); /* WF: next(tail) == NULL_SLOT */
+  a->_b_CollectionData.head_ = *empty ? NSLOT : g_id[0];
+  a->_b_CollectionData.tail_ = *empty ? NSLOT : g_id[b];
+  return b;
+}
+void h_addElement(void) {
+  struct ArrayData a;
+  _Bool empty;
+  unsigned b = mk_array_local(&a, &empty);
+  struct ArrayData a0 = a;
+  snapshot();
+  _Bool null_array = in_bool();
+  VD *r = null_array ? ArrayData__addElement__ArrayData_p_ResourceManager_p((struct ArrayData *)0, &g_rm)
+                     : ArrayData__addElement__ArrayData_p_ResourceManager_p(&a, &g_rm);
+  COVER(null_array); COVER(!null_array && r == 0); COVER(!null_array && r != 0 && empty); COVER(!null_array && r != 0 && !empty && b == 1);
+  if (null_array) {
+    CHECK(r == 0 && g_alloc_calls == 0, "adding to an unbound array returns null and allocates nothing");
+    return;
+  }
+  CHECK(g_alloc_calls == 1 && g_free_calls == 0, "addElement asks for exactly one slot and releases nothing");
+  if (g_alloc_fail_seen) {
+    CHECK(r == 0, "C05: allocation failure is reported as a null element");
+#ifdef CANARY_ADD_ELEMENT
+    CHECK(a._b_CollectionData.head_ == a0._b_CollectionData.head_ && a._b_CollectionData.tail_ == a0._b_CollectionData.tail_ && unchanged_except(0) && !empty,
+          "C05: on allocation failure the array is unchanged");
+#else
+    CHECK(a._b_CollectionData.head_ == a0._b_CollectionData.head_ && a._b_CollectionData.tail_ == a0._b_CollectionData.tail_ && unchanged_except(0),
+          "C05: on allocation failure the array is unchanged");
+#endif
+  } else {
+    const unsigned e = NS - 1;
+    CHECK(r == &g_slots[e], "addElement returns the new element");
+    CHECK(g_slots[e].type_ == VT_NULL && g_slots[e].next_ == NSLOT, "the new element is null and is the last one");
+    CHECK(a._b_CollectionData.tail_ == g_id[e], "the new element is appended last: tail' = id");
+    if (empty) CHECK(a._b_CollectionData.head_ == g_id[e] && unchanged_except(0), "first element: head' = id, no other slot written");
+    else {
+      CHECK(a._b_CollectionData.head_ == a0._b_CollectionData.head_ && g_slots[b].next_ == g_id[e], "next(old tail) = id, head_ unchanged");
+      CHECK(slot_same_value(&g_slots[b], &g_before[b]) && unchanged_except(1u << b), "existing elements keep their values; only next(old tail) is written");
+    }
+  }
+}
+/* contract of JsonVariant::set(JsonVariantConst) used by addValue: reports success or failure; writes the value (type_,
+ * content_) of the variant it is called on and nothing else of the list (never next_: obligations vset_* of unit coll_variant) */
+static unsigned g_set_calls;
+static _Bool g_set_ok;
+_Bool VariantRefBase_JsonVariant__set_JsonVariantConst(struct VariantRefBase_JsonVariant *self, struct JsonVariantConst *value) {
+  struct JsonVariant *v = (struct JsonVariant *)self;
+  CHECK(v->data_ == &g_slots[NS - 1] && v->resources_ == &g_rm, "set() is applied to the freshly allocated slot with the document's resources");
+  CHECK(g_slots[NS - 1].type_ == VT_NULL, "set() is applied to a null variant");
+  g_set_calls++;
+  slotid_t keep = g_slots[NS - 1].next_;
+  havoc_slot(&g_slots[NS - 1]);
+  g_slots[NS - 1].next_ = keep;
+  g_before[NS - 1] = g_slots[NS - 1];
+  g_set_ok = in_bool();
+  return g_set_ok;
+}
+void h_addValue(void) {
+  struct ArrayData a;
+  _Bool empty;
+  unsigned b = mk_array_local(&a, &empty);
+  struct ArrayData a0 = a;
+  struct JsonVariantConst src;
+  src.data_ = &g_slots[2]; src.resources_ = &g_rm;
+  snapshot();
+  _Bool ok = ArrayData__addValue_JsonVariantConst_r__JsonVariantConst_r_ResourceManager_p(&a, &src, &g_rm);
+  const unsigned e = NS - 1;
+  COVER(g_alloc_fail_seen); COVER(!g_alloc_fail_seen && !g_set_ok); COVER(ok && empty); COVER(ok && !empty);
+  CHECK(g_alloc_calls == 1, "addValue asks for exactly one slot");
+  if (g_alloc_fail_seen) {
+    CHECK(!ok && g_set_calls == 0 && g_free_calls == 0, "C05: slot allocation failure is reported (false), nothing else is attempted");
+    CHECK(a._b_CollectionData.head_ == a0._b_CollectionData.head_ && a._b_CollectionData.tail_ == a0._b_CollectionData.tail_ && unchanged_except(0), "C05: the array is unchanged");
+  } else if (!g_set_ok) {
+    CHECK(!ok, "C05: failure to store the value is reported (false)");
+#ifdef CANARY_ADD_VALUE
+    CHECK(g_free_calls == 1 && g_freed[e] && b == 0, "C05/C06: the slot allocated for the value is released exactly once");
+#else
+    CHECK(g_free_calls == 1 && g_freed[e], "C05/C06: the slot allocated for the value is released exactly once");
+#endif
+    CHECK(a._b_CollectionData.head_ == a0._b_CollectionData.head_ && a._b_CollectionData.tail_ == a0._b_CollectionData.tail_ && unchanged_except(1u << e), "C05: the array is unchanged");
+  } else {
+    CHECK(ok && g_free_calls == 0 && g_set_calls == 1, "success: value stored once, nothing released");
+    CHECK(a._b_CollectionData.tail_ == g_id[e] && g_slots[e].next_ == NSLOT, "the new element is appended last");
+    CHECK(slot_same_value(&g_slots[e], &g_before[e]), "the element holds what set() stored");
+    if (empty) CHECK(a._b_CollectionData.head_ == g_id[e] && unchanged_except(0), "first element: head' = id");
+    else CHECK(a._b_CollectionData.head_ == a0._b_CollectionData.head_ && g_slots[b].next_ == g_id[e] && slot_same_value(&g_slots[b], &g_before[b]) && unchanged_except(1u << b),
+               "next(old tail) = id; head_ and existing elements unchanged");
+  }
+}
+/* bounded shape (B): arrays of <= 4 elements */
+void h_getElement_b(void) {
+  mk_store(1);
+  struct ArrayData a;
+  mk_list(&a._b_CollectionData, 0);
+  struct ArrayData a0 = a;
+  unsigned long index = in_u64();
+  snapshot();
+  _Bool null_array = in_bool();
+  VD *r = ArrayData__getElement__ArrayData_p_ulong_ResourceManager_p(null_array ? (struct ArrayData *)0 : &a, index, &g_rm);
+  COVER(null_array); COVER(!null_array && index == 3 && g_n == 4); COVER(!null_array && index >= g_n);
+  if (null_array) CHECK(r == 0, "element of an unbound array: null");
+#ifdef CANARY_GET_ELEMENT
+  else CHECK(r == (index < g_n ? &g_slots[g_p[index < 4 ? index : 0]] : (VD *)0) && index != 2, "getElement(i) is the i-th slot of the list, null beyond the end");
+#else
+  else CHECK(r == (index < g_n ? &g_slots[g_p[index < 4 ? index : 0]] : (VD *)0), "getElement(i) is the i-th slot of the list, null beyond the end");
+#endif
+  CHECK(unchanged_except(0) && g_free_calls == 0 && a._b_CollectionData.head_ == a0._b_CollectionData.head_ && a._b_CollectionData.tail_ == a0._b_CollectionData.tail_, "getElement is read-only");
+}
+/* removeElement(i) == removeOne(iterator at i): the callee's contract is coll_remove/removeOne (+ coll_core/removeOne_le4) */
+static struct CollectionIterator g_rm1_it;
+static struct CollectionData *g_rm1_self;
+static unsigned g_rm1_calls;
+void CollectionData__removeOne(struct CollectionData *self, struct CollectionIterator it, struct ResourceManager *resources) {
+  CHECK(resources == &g_rm, "removeOne is asked on the document's resource manager");
+  g_rm1_calls++;
+  g_rm1_self = self;
+  g_rm1_it = it;
+}
+void h_removeElement_b(void) {
+  mk_store(1);
+  struct ArrayData a;
+  mk_list(&a._b_CollectionData, 0);
+  unsigned long index = in_u64();
+  snapshot();
+  _Bool null_array = in_bool();
+  ArrayData__removeElement__ArrayData_p_ulong_ResourceManager_p(null_array ? (struct ArrayData *)0 : &a, index, &g_rm);
+  COVER(null_array); COVER(!null_array && index == 3 && g_n == 4); COVER(!null_array && index >= g_n);
+  if (null_array) { CHECK(g_rm1_calls == 0, "removing from an unbound array does nothing"); return; }
+  CHECK(g_rm1_calls == 1 && g_rm1_self == &a._b_CollectionData, "removeElement removes through removeOne on this array, once");
+  if (index < g_n) {
+    unsigned i = index < 4 ? index : 0;
+#ifdef CANARY_REMOVE_ELEMENT
+    CHECK(g_rm1_it.slot_ == &g_slots[g_p[i]] && g_rm1_it.currentId_ == g_id[g_p[i]] && index != 1, "the iterator handed to removeOne designates exactly the i-th element");
+#else
+    CHECK(g_rm1_it.slot_ == &g_slots[g_p[i]] && g_rm1_it.currentId_ == g_id[g_p[i]], "the iterator handed to removeOne designates exactly the i-th element");
+#endif
+  } else CHECK(g_rm1_it.slot_ == 0, "beyond the end: a done iterator (removeOne then changes nothing: coll_remove/remove_done)");
+  CHECK(unchanged_except(0) && g_free_calls == 0, "removeElement itself writes nothing");
+}
+/* getOrAddElement(i): arrays of <= 2 elements, i <= n+2 (up to 3 allocations, each may fail) */
+void h_getOrAddElement_b(void) {
+  mk_store(1);
+  struct ArrayData a;
+  mk_list(&a._b_CollectionData, 0);
+  __CPROVER_assume(g_n <= 2);
+  unsigned n0 = g_n;
+  unsigned long index = in_u64();
+  __CPROVER_assume(index <= n0 + 2);
+  snapshot();
+  VD *r = ArrayData__getOrAddElement(&a, index, &g_rm);
+  unsigned k = g_alloc_ok; /* elements actually added */
+  COVER(index < n0); COVER(index == n0 + 2 && r != 0); COVER(index == n0 + 2 && r == 0 && k == 2); COVER(n0 == 0 && index == 0 && r != 0);
+  unsigned e[6], m = 0;
+  for (unsigned j = 0; j < 2; j++) if (j < n0) e[m++] = g_p[j];
+  for (unsigned j = 0; j < 3; j++) if (j < k) e[m++] = NS - 1 - j;
+  CHECK(list_is(&a._b_CollectionData, e, m), "the array is the old sequence followed by the elements added (well formed also after a failure midway)");
+  _Bool nulls = 1;
+  for (unsigned j = 0; j < 3; j++) if (j < k && g_slots[NS - 1 - j].type_ != VT_NULL) nulls = 0;
+  CHECK(nulls, "insertion beyond the end pads with null elements");
+  CHECK(g_free_calls == 0, "nothing is released");
+  _Bool old_same = 1;
+  for (unsigned j = 0; j < 2; j++) if (j < n0 && !slot_same_value(&g_slots[g_p[j]], &g_before[g_p[j]])) old_same = 0;
+  CHECK(old_same && unchanged_except(list_mask() | (7u << (NS - 3))), "existing elements keep their values; slots outside the array untouched");
+  if (index < n0) {
+    CHECK(r == &g_slots[g_p[index < 2 ? index : 0]] && g_alloc_calls == 0, "an existing index returns that element and allocates nothing");
+  } else if (g_alloc_fail_seen) {
+    CHECK(r == 0, "C05: allocation failure is reported as a null element");
+  } else {
+#ifdef CANARY_GET_OR_ADD
+    CHECK(k == index - n0 + 1 && r == &g_slots[NS - k] && n0 != 1, "index >= size: exactly index-size+1 elements are added and the last one is returned");
+#else
+    CHECK(k == index - n0 + 1 && r == &g_slots[NS - k], "index >= size: exactly index-size+1 elements are added and the last one is returned");
+#endif
+  }
+}
+#endif
+
+/* ===================================================================================================================
+ * unit coll_object: ObjectData (real appendPair / createIterator / next / CollectionData::size inlined; allocVariant,
+ * getVariant, freeVariant, removePair, VariantData::setString<adapted string> and stringEquals by contract) */
+#ifdef U_OBJECT
+static char g_keytext[3] = {'k', 'y', 0};
+static struct SizedRamString g_key; /* the key handed to the operation */
+static unsigned g_setstr_calls;
+static _Bool g_setstr_ok;
+static struct StringNode *g_keynode; /* what a successful setString stores */
+/* contract of VariantData::setString(adapted string) (owned by the strings units, agent spec-strings): false => the variant is
+ * untouched (still Null); true => it holds a string equal to the key (owned copy here); never writes next_ */
+_Bool VariantData__setString_SizedRamString(VD *self, struct SizedRamString value, struct ResourceManager *resources) {
+  CHECK(resources == &g_rm, "setString is asked on the document's resource manager");
+  CHECK(self == &g_slots[NS - 1], "the key string goes into the slot allocated first (the key slot)");
+  CHECK(self->type_ == VT_NULL, "setString is applied to a null variant");
+  CHECK(value.str_ == g_key.str_ && value.size_ == g_key.size_, "the key is passed unchanged");
+  g_setstr_calls++;
+  g_setstr_ok = in_bool();
+  if (g_setstr_ok) {
+    self->type_ = VT_OWNED;
+    self->content_.asOwnedString = g_keynode;
+    g_before[NS - 1] = *self;
+  }
+  return g_setstr_ok;
+}
+static unsigned mk_object_local(struct ObjectData *o, _Bool *empty) {
+  mk_store(0);
+  *empty = in_bool();
+  unsigned b = in_bool() ? 1 : 0;
+  __CPROVER_assume(g_slots[b].next_ == NSLOT); /* WF: next(tail) == NULL_SLOT */
+  o->_b_CollectionData.head_ = *empty ? NSLOT : g_id[0];
+  o->_b_CollectionData.tail_ = *empty ? NSLOT : g_id[b];
+  g_key.str_ = g_keytext;
+  g_key.size_ = 2;
+  g_keynode = malloc(sizeof(struct StringNode) + 2);
+  __CPROVER_assume(g_keynode != 0);
+  return b;
+}
+/* addMember(key): KEYKIND 0 = adapted string (SizedRamString), 1 = StringNode* (a string the document already owns) */
+void h_addMember(void) {
+  struct ObjectData o;
+  _Bool empty;
+  unsigned b = mk_object_local(&o, &empty);
+  struct ObjectData o0 = o;
+  snapshot();
+#if KEYKIND == 0
+  VD *r = ObjectData__addMember_SizedRamString(&o, g_key, &g_rm);
+  _Bool str_failed = g_setstr_calls && !g_setstr_ok;
+#else
+  VD *r = ObjectData__addMember_StringNode_p(&o, g_keynode, &g_rm);
+  _Bool str_failed = 0;
+#endif
+  const unsigned k = NS - 1, v = NS - 2;
+  _Bool failed = g_alloc_fail_seen || str_failed;
+  COVER(g_alloc_fail_seen && g_alloc_calls == 1); COVER(g_alloc_fail_seen && g_alloc_calls == 2); COVER(!failed && empty); COVER(!failed && !empty && b == 1);
+#if KEYKIND == 0
+  COVER(str_failed);
+#endif
+  CHECK(g_free_calls == 0, "addMember releases nothing");
+  if (failed) {
+    CHECK(r == 0, "C05: any failure (key slot, value slot, key string) is reported as a null member");
+#ifdef CANARY_ADD_MEMBER
+    CHECK(o._b_CollectionData.head_ == o0._b_CollectionData.head_ && o._b_CollectionData.tail_ == o0._b_CollectionData.tail_ && g_alloc_calls != 2, "C05: on failure head_/tail_ are unchanged");
+#else
+    CHECK(o._b_CollectionData.head_ == o0._b_CollectionData.head_ && o._b_CollectionData.tail_ == o0._b_CollectionData.tail_, "C05: on failure head_/tail_ are unchanged");
+#endif
+    CHECK(unchanged_except(0), "C05: on failure every existing slot is unchanged: no member lacks a key or a value");
+  } else {
+    CHECK(g_alloc_calls == 2, "a member takes exactly two slots");
+    CHECK(r == &g_slots[v], "addMember returns the value slot");
+    CHECK(g_slots[v].type_ == VT_NULL && g_slots[v].next_ == NSLOT, "the new value is null and is the last slot");
+    CHECK(g_slots[k].next_ == g_id[v] && o._b_CollectionData.tail_ == g_id[v], "key slot then value slot are appended: next(key) = value, tail' = value");
+    CHECK(g_slots[k].type_ == VT_OWNED && g_slots[k].content_.asOwnedString == (void *)g_keynode, "the key slot holds the key string");
+    if (empty) CHECK(o._b_CollectionData.head_ == g_id[k] && unchanged_except(1u << k), "first member: head' = key");
+    else CHECK(o._b_CollectionData.head_ == o0._b_CollectionData.head_ && g_slots[b].next_ == g_id[k] && slot_same_value(&g_slots[b], &g_before[b]) && unchanged_except((1u << b) | (1u << k)),
+               "next(old tail) = key; head_ and existing members unchanged");
+  }
+}
+
+/* ---- lookups on bounded objects (B): 0, 1 or 2 members = entries (0,1),(2,3); each slot holds a linked or an owned string.
+ * stringEquals is abstract: the stub answers g_eq[entry] and records which stored strings were compared, in which order. */
+static char g_linked[4][4];
+static struct StringNode *g_node[4];
+static char *g_str_ptr[4];
+static unsigned long g_str_len[4];
+static _Bool g_eq[4];
+static int g_cmp_order[4];
+static unsigned g_cmp_n;
+/* contract of stringEquals(adapted key, JsonString) (proved size-aware and NUL-safe: unit cmp_strings of compare.json) */
+_Bool stringEquals_SizedRamString_JsonStringAdapter(struct SizedRamString s1, struct JsonStringAdapter s2) {
+  CHECK(s1.str_ == g_key.str_ && s1.size_ == g_key.size_, "the lookup key is passed unchanged");
+  int e = -1;
+  for (int i = 0; i < 4; i++)
+    if (s2._b_SizedRamString.str_ == g_str_ptr[i]) e = i;
+  CHECK(e >= 0 && e % 2 == 0, "findKey compares only slots at even positions (keys)");
+  if (e < 0) return 0;
+  CHECK(s2._b_SizedRamString.size_ == g_str_len[e], "the stored key is compared with its own length (size-aware)");
+  if (g_cmp_n < 4) g_cmp_order[g_cmp_n] = e;
+  g_cmp_n++;
+  return g_eq[e];
+}
+static void mk_object_b(struct ObjectData *o) {
+  mk_store(1);
+  mk_list(&o->_b_CollectionData, 1);
+  for (int e = 0; e < 4; e++) {
+    g_str_len[e] = in_u8();
+    __CPROVER_assume(g_str_len[e] <= 3);
+    g_eq[e] = in_bool();
+    if (in_bool()) { /* linked: NUL-terminated, length by strlen */
+      for (unsigned i = 0; i < 4; i++) { g_linked[e][i] = in_char(); __CPROVER_assume((i == g_str_len[e]) == (g_linked[e][i] == 0) || i > g_str_len[e]); }
+      g_str_ptr[e] = g_linked[e];
+      g_slots[e].type_ = VT_LINKED;
+      g_slots[e].content_.asLinkedString = g_linked[e];
+    } else { /* owned: length in the node (may contain NUL) */
+      g_node[e] = malloc(sizeof(struct StringNode) + 4);
+      __CPROVER_assume(g_node[e] != 0);
+      g_node[e]->length = (__typeof__(g_node[e]->length))g_str_len[e];
+      g_str_ptr[e] = g_node[e]->data;
+      g_slots[e].type_ = VT_OWNED;
+      g_slots[e].content_.asOwnedString = g_node[e];
+    }
+  }
+  _Bool null_key = in_bool();
+  g_key.str_ = null_key ? (char *)0 : g_keytext;
+  g_key.size_ = null_key ? 0 : 2;
+}
+/* model: index of the first member whose key equals the lookup key, -1 if none / null key */
+static int model_find(void) {
+  if (g_key.str_ == 0) return -1;
+  if (g_n >= 2 && g_eq[0]) return 0;
+  if (g_n >= 4 && g_eq[2]) return 2;
+  return -1;
+}
+static _Bool cmp_trace_ok(int found) {
+  unsigned want = g_key.str_ == 0 ? 0 : (found >= 0 ? (unsigned)found / 2 + 1 : g_n / 2);
+  _Bool ok = g_cmp_n == want;
+  for (unsigned j = 0; j < 2; j++) if (j < g_cmp_n && g_cmp_order[j] != (int)(2 * j)) ok = 0;
+  return ok;
+}
+void h_findKey_b(void) {
+  struct ObjectData o;
+  mk_object_b(&o);
+  snapshot();
+  struct CollectionIterator it = ObjectData__findKey_SizedRamString(&o, g_key, &g_rm);
+  int f = model_find();
+  COVER(g_key.str_ == 0); COVER(f == 0); COVER(f == 2); COVER(f < 0 && g_n == 4 && g_key.str_ != 0);
+#ifdef CANARY_FIND_KEY
+  CHECK(it.slot_ == (f >= 0 ? &g_slots[f] : (VD *)0) && f != 2, "findKey designates the first key slot equal to the key; done iterator if none or if the key is null");
+#else
+  CHECK(it.slot_ == (f >= 0 ? &g_slots[f] : (VD *)0), "findKey designates the first key slot equal to the key; done iterator if none or if the key is null");
+#endif
+  CHECK(f < 0 || (it.currentId_ == g_id[f] && it.nextId_ == g_id[f + 1]), "the iterator carries the key id and the value id");
+  CHECK(cmp_trace_ok(f), "keys are compared in order, each once, values never, nothing after the match");
+  CHECK(unchanged_except(0) && g_free_calls == 0 && g_alloc_calls == 0, "findKey is read-only");
+}
+void h_getMember_b(void) {
+  struct ObjectData o;
+  mk_object_b(&o);
+  struct ObjectData o0 = o;
+  snapshot();
+  VD *r = ObjectData__getMember_SizedRamString__SizedRamString_ResourceManager_p(&o, g_key, &g_rm);
+  unsigned long sz = ObjectData__size__ResourceManager_p(&o, &g_rm);
+  int f = model_find();
+  COVER(f == 0); COVER(f == 2); COVER(f < 0);
+#ifdef CANARY_GET_MEMBER
+  CHECK(r == (f >= 0 ? &g_slots[f + 1] : (VD *)0) && f != 0, "getMember returns the slot after the matching key (its value), null if none");
+#else
+  CHECK(r == (f >= 0 ? &g_slots[f + 1] : (VD *)0), "getMember returns the slot after the matching key (its value), null if none");
+#endif
+  CHECK(sz == g_n / 2, "size() of an object == number of key/value pairs");
+  CHECK(unchanged_except(0) && g_free_calls == 0 && g_alloc_calls == 0 && o._b_CollectionData.head_ == o0._b_CollectionData.head_ && o._b_CollectionData.tail_ == o0._b_CollectionData.tail_, "getMember and size are read-only");
+}
+/* removeMember(key) == removePair(findKey(key)); callee contract: coll_remove/removePair (+ coll_core/removePair_le4) */
+static struct CollectionIterator g_rmp_it;
+static unsigned g_rmp_calls;
+void CollectionData__removePair(struct CollectionData *self, struct CollectionIterator it, struct ResourceManager *resources) {
+  CHECK(resources == &g_rm, "removePair is asked on the document's resource manager");
+  g_rmp_calls++;
+  g_rmp_it = it;
+}
+void h_removeMember_b(void) {
+  struct ObjectData o;
+  mk_object_b(&o);
+  snapshot();
+  ObjectData__removeMember_SizedRamString__SizedRamString_ResourceManager_p(&o, g_key, &g_rm);
+  int f = model_find();
+  COVER(f == 0); COVER(f == 2); COVER(f < 0);
+  CHECK(g_rmp_calls == 1, "removeMember removes through removePair, once");
+#ifdef CANARY_REMOVE_MEMBER
+  CHECK(g_rmp_it.slot_ == (f >= 0 ? &g_slots[f] : (VD *)0) && f != 2, "removePair receives exactly the matching key (done iterator if none: nothing is removed)");
+#else
+  CHECK(g_rmp_it.slot_ == (f >= 0 ? &g_slots[f] : (VD *)0), "removePair receives exactly the matching key (done iterator if none: nothing is removed)");
+#endif
+  CHECK(f < 0 || (g_rmp_it.currentId_ == g_id[f] && g_rmp_it.nextId_ == g_id[f + 1]), "with the key id and the value id");
+  CHECK(unchanged_except(0) && g_free_calls == 0, "removeMember itself writes nothing");
+}
+void h_getOrAddMember_b(void) {
+  struct ObjectData o;
+  mk_object_b(&o);
+  __CPROVER_assume(g_key.str_ != 0);
+  g_keynode = malloc(sizeof(struct StringNode) + 2);
+  __CPROVER_assume(g_keynode != 0);
+  struct ObjectData o0 = o;
+  snapshot();
+  VD *r = ObjectData__getOrAddMember_SizedRamString(&o, g_key, &g_rm);
+  int f = model_find();
+  _Bool failed = g_alloc_fail_seen || (g_setstr_calls && !g_setstr_ok);
+  COVER(f >= 0); COVER(f < 0 && failed); COVER(f < 0 && !failed && g_n == 4); COVER(f < 0 && !failed && g_n == 0);
+  if (f >= 0) {
+    CHECK(r == &g_slots[f + 1] && g_alloc_calls == 0, "an existing key returns its value and allocates nothing");
+    CHECK(unchanged_except(0) && o._b_CollectionData.head_ == o0._b_CollectionData.head_ && o._b_CollectionData.tail_ == o0._b_CollectionData.tail_, "and changes nothing");
+  } else if (failed) {
+    CHECK(r == 0, "C05: failure to add the member is reported as null");
+    CHECK(unchanged_except(0) && o._b_CollectionData.head_ == o0._b_CollectionData.head_ && o._b_CollectionData.tail_ == o0._b_CollectionData.tail_, "C05: the object is unchanged");
+  } else {
+    unsigned e[6], m = 0;
+    for (unsigned j = 0; j < 4; j++) if (j < g_n) e[m++] = j;
+    e[m++] = NS - 1; e[m++] = NS - 2;
+#ifdef CANARY_GET_OR_ADD_MEMBER
+    CHECK(r == &g_slots[NS - 2] && list_is(&o._b_CollectionData, e, m) && g_n != 2, "a missing key is appended as a new (key, null value) pair and the value is returned");
+#else
+    CHECK(r == &g_slots[NS - 2] && list_is(&o._b_CollectionData, e, m), "a missing key is appended as a new (key, null value) pair and the value is returned");
+#endif
+    CHECK(g_slots[NS - 1].type_ == VT_OWNED && g_slots[NS - 2].type_ == VT_NULL, "key slot holds the string, value is null");
+  }
+  CHECK(g_free_calls == 0, "nothing is released");
+}
+#endif
+
+/* ===================================================================================================================
+ * unit coll_variant: VariantData::clear and the scalar / container / raw-string setters on ONE arbitrary variant.
+ * Callees by contract: ResourceManager::dereferenceString (strings units), freeExtension / allocExtension (unit coll_resmgr:
+ * rm_free / rm_alloc), CollectionData::clear (coll_loops/clear_anylen), saveString (strings units). */
+#ifdef U_VARIANT
+#if defined(CFG_nodbl)
+#define HAS_DOUBLE 0
+#else
+#define HAS_DOUBLE 1
+#endif
+#if defined(CFG_noll)
+#define HAS_LL 0
+#else
+#define HAS_LL 1
+#endif
+static struct ResourceManager g_rm;
+static VD g_v;
+static unsigned g_deref_calls, g_freeext_calls, g_cclear_calls, g_allocext_calls, g_save_calls, g_seq;
+static unsigned g_deref_at, g_freeext_at, g_cclear_at;
+static char *g_deref_arg;
+static slotid_t g_freeext_arg;
+static struct CollectionData *g_cclear_arg;
+static union VariantExtension g_ext;
+static slotid_t g_ext_id;
+static _Bool g_allocext_ok, g_save_ok;
+static struct StringNode *g_node, *g_saved;
+static struct SizedRamString g_save_arg;
+void ResourceManager__dereferenceString(struct ResourceManager *self, char *str) {
+  CHECK(self == &g_rm, "dereferenceString is asked on the document's resource manager");
+  g_deref_calls++; g_deref_at = ++g_seq;
+  g_deref_arg = str;
+  if (in_bool()) free(g_node); /* the last reference may go away: the node must not be read afterwards */
+}
+void ResourceManager__freeExtension(struct ResourceManager *self, slotid_t id) {
+  CHECK(self == &g_rm, "freeExtension is asked on the document's resource manager");
+  g_freeext_calls++; g_freeext_at = ++g_seq;
+  g_freeext_arg = id;
+}
+void CollectionData__clear__ResourceManager_p(struct CollectionData *self, struct ResourceManager *resources) {
+  CHECK(resources == &g_rm, "children are cleared on the document's resource manager");
+  g_cclear_calls++; g_cclear_at = ++g_seq;
+  g_cclear_arg = self;
+  self->head_ = NSLOT; /* contract of CollectionData::clear */
+  self->tail_ = NSLOT;
+}
+struct Slot_VariantExtension ResourceManager__allocExtension(struct ResourceManager *self) {
+  struct Slot_VariantExtension r;
+  CHECK(self == &g_rm, "allocExtension is asked on the document's resource manager");
+  g_allocext_calls++;
+  g_allocext_ok = in_bool();
+  r.ptr_ = g_allocext_ok ? &g_ext : (union VariantExtension *)0;
+  r.id_ = g_allocext_ok ? g_ext_id : NSLOT;
+  return r;
+}
+struct StringNode *ResourceManager__saveString_SizedRamString(struct ResourceManager *self, struct SizedRamString str) {
+  CHECK(self == &g_rm, "saveString is asked on the document's resource manager");
+  g_save_calls++;
+  g_save_arg = str;
+  g_save_ok = in_bool();
+  return g_save_ok ? g_saved : (struct StringNode *)0;
+}
+static const unsigned char k_types[] = {VT_NULL, VT_RAW, VT_LINKED, VT_OWNED, VT_BOOL, VT_UINT32, VT_INT32, VT_FLOAT,
+#if HAS_LL
+                                        VT_UINT64, VT_INT64,
+#endif
+#if HAS_DOUBLE
+                                        VT_DOUBLE,
+#endif
+                                        VT_OBJECT, VT_ARRAY};
+#define N_TYPES (sizeof k_types / sizeof k_types[0])
+static char g_text[4];
+/* an arbitrary well-formed variant: type of the enumeration, content of that kind, any next_ */
+static void mk_variant(void) {
+  unsigned ti = in_u8();
+  __CPROVER_assume(ti < N_TYPES);
+  havoc_slot(&g_v);
+  g_v.type_ = k_types[ti];
+  g_node = malloc(sizeof(struct StringNode) + 4);
+  g_saved = malloc(sizeof(struct StringNode) + 4);
+  __CPROVER_assume(g_node != 0 && g_saved != 0);
+  g_ext_id = (slotid_t)in_u32();
+  __CPROVER_assume(g_ext_id != NSLOT);
+  if (g_v.type_ == VT_RAW || g_v.type_ == VT_OWNED) g_v.content_.asOwnedString = g_node;
+  if (g_v.type_ == VT_LINKED) g_v.content_.asLinkedString = g_text;
+}
+/* VariantData::clear / static clear */
+void h_vclear(void) {
+  mk_variant();
+  VD v0 = g_v;
+  uint64_t bits0 = content_bits(&g_v);
+  unsigned char t = g_v.type_;
+  _Bool owned = t == VT_RAW || t == VT_OWNED;
+  _Bool ext = t == VT_UINT64 || t == VT_INT64 || t == VT_DOUBLE;
+  _Bool coll = t == VT_OBJECT || t == VT_ARRAY;
+  char *node_chars = g_node->data; /* taken before the call: the stub may free the node */
+  _Bool null_var = in_bool();
+  if (null_var) VariantData__clear__VariantData_p_ResourceManager_p((VD *)0, &g_rm);
+  else VariantData__clear__VariantData_p_ResourceManager_p(&g_v, &g_rm);
+  COVER(null_var); COVER(!null_var && t == VT_RAW); COVER(!null_var && t == VT_OWNED); COVER(!null_var && t == VT_LINKED); COVER(!null_var && t == VT_ARRAY); COVER(!null_var && t == VT_OBJECT); COVER(!null_var && t == VT_INT32);
+#if HAS_LL
+  COVER(!null_var && t == VT_INT64); COVER(!null_var && t == VT_UINT64);
+#endif
+#if HAS_DOUBLE
+  COVER(!null_var && t == VT_DOUBLE);
+#endif
+  if (null_var) {
+    CHECK(g_seq == 0 && slot_same(&g_v, &v0), "clearing an unbound variant does nothing");
+    return;
+  }
+#ifdef CANARY_VCLEAR
+  CHECK(g_deref_calls == (owned ? 1u : 0u) && (!owned || g_deref_arg == node_chars) && t != VT_RAW, "C06: exactly one string reference is released iff the variant owns a string (value or raw), with its characters");
+#else
+  CHECK(g_deref_calls == (owned ? 1u : 0u) && (!owned || g_deref_arg == node_chars), "C06: exactly one string reference is released iff the variant owns a string (value or raw), with its characters");
+#endif
+  CHECK(g_freeext_calls == (ext ? 1u : 0u) && (!ext || g_freeext_arg == v0.content_.asSlotId), "C06: the extension slot is released exactly once iff the value lives in one (64-bit integer, double), with its id");
+  CHECK(g_cclear_calls == (coll ? 1u : 0u) && (!coll || g_cclear_arg == &g_v.content_.asCollection), "all children are released iff the variant is an array or an object");
+  CHECK(g_v.type_ == VT_NULL, "after clear() the variant is null");
+  CHECK(g_v.next_ == v0.next_, "clear() keeps the variant's place in its list (next_)");
+  CHECK(g_allocext_calls == 0 && g_save_calls == 0, "clear() allocates nothing");
+  CHECK(owned || ext || coll || g_seq == 0, "inline scalars and linked strings release nothing");
+}
+/* numeric setters on a null variant. kind: 0 int, 1 long, 2 signed char, 3 unsigned, 4 unsigned long, 5 float, 6 double, 7 bool */
+void h_vset_number(void) {
+  mk_variant();
+  g_v.type_ = VT_NULL; /* precondition of every setter (ARDUINOJSON_ASSERT): clear() first */
+  VD v0 = g_v;
+  unsigned kind = in_u8();
+  __CPROVER_assume(kind < 8);
+  int64_t sv = in_i64();
+  uint64_t uv = in_u64();
+  float fv = in_f32();
+  double dv = in_f64();
+  _Bool ok = 1, is_signed = 0, is_unsigned = 0;
+  switch (kind) {
+    case 0: sv = (int)sv; is_signed = 1; ok = VariantData__setInteger_int(&g_v, (int)sv, &g_rm); break;
+    case 1: is_signed = 1; ok = VariantData__setInteger_long(&g_v, (long)sv, &g_rm); break;
+    case 2: sv = (signed char)sv; is_signed = 1; ok = VariantData__setInteger_signedchar(&g_v, (signed char)sv, &g_rm); break;
+    case 3: uv = (unsigned)uv; is_unsigned = 1; ok = VariantData__setInteger_uint(&g_v, (unsigned)uv, &g_rm); break;
+    case 4: is_unsigned = 1; ok = VariantData__setInteger_ulong(&g_v, (unsigned long)uv, &g_rm); break;
+    case 5: ok = VariantData__setFloat_float(&g_v, fv, &g_rm); break;
+    case 6: ok = VariantData__setFloat_double(&g_v, dv, &g_rm); break;
+    default: VariantData__setBoolean(&g_v, (uv & 1) != 0); break;
+  }
+  _Bool fits32 = is_signed ? (sv >= -2147483647 - 1 && sv <= 2147483647) : (uv <= 0xFFFFFFFFull);
+  _Bool lossless = (double)(float)dv == dv; /* "stored as float when lossless" */
+  _Bool needs_ext = ((is_signed || is_unsigned) && !fits32) || (kind == 6 && HAS_DOUBLE && !lossless);
+  COVER(kind == 0); COVER(kind == 1 && fits32); COVER(kind == 2); COVER(kind == 3); COVER(kind == 4 && fits32); COVER(kind == 5); COVER(kind == 6 && lossless); COVER(kind == 7);
+#if HAS_LL
+  COVER(kind == 1 && !fits32 && ok); COVER(kind == 1 && !fits32 && !ok); COVER(kind == 4 && !fits32 && ok); COVER(kind == 4 && !fits32 && !ok);
+#endif
+#if HAS_DOUBLE
+  COVER(kind == 6 && !lossless && ok); COVER(kind == 6 && !lossless && !ok); COVER(kind == 6 && dv != dv);
+#endif
+  CHECK(g_v.next_ == v0.next_, "a setter never writes next_ (the variant keeps its place in its list)");
+  CHECK(g_seq == 0 && g_save_calls == 0, "a setter releases nothing");
+  if (!needs_ext) {
+    CHECK(ok && g_allocext_calls == 0, "values of at most 32 bits are stored inline: no slot is requested and the setter succeeds");
+    if (is_signed) CHECK(g_v.type_ == VT_INT32 && g_v.content_.asInt32 == sv, "signed integer within int32: stored inline as Int32 with that value");
+    if (is_unsigned) CHECK(g_v.type_ == VT_UINT32 && g_v.content_.asUint32 == uv, "unsigned integer within uint32: stored inline as Uint32 with that value");
+    if (kind == 5) CHECK(g_v.type_ == VT_FLOAT && memcmp(&g_v.content_.asFloat, &fv, 4) == 0, "float: stored inline, bit for bit");
+    if (kind == 6) {
+      float f = (float)dv;
+#ifdef CANARY_VSET_NUMBER
+      CHECK(g_v.type_ == VT_FLOAT && memcmp(&g_v.content_.asFloat, &f, 4) == 0 && dv != 0.5, "double that a float represents exactly: stored inline as that float");
+#else
+      CHECK(g_v.type_ == VT_FLOAT && memcmp(&g_v.content_.asFloat, &f, 4) == 0, "double that a float represents exactly: stored inline as that float");
+#endif
+    }
+    if (kind == 7) CHECK(g_v.type_ == VT_BOOL && g_v.content_.asBoolean == ((uv & 1) != 0), "boolean stored inline");
+  } else {
+    CHECK(g_allocext_calls == 1, "a 64-bit value requests exactly one extension slot");
+    if (!g_allocext_ok) {
+      CHECK(!ok, "C05: failure to get the extension slot is reported (false)");
+      CHECK(g_v.type_ == VT_NULL, "C05: on failure the variant stays null");
+    } else {
+      CHECK(ok, "with the extension slot the setter succeeds");
+      CHECK(g_v.content_.asSlotId == g_ext_id, "the variant records the id of its extension slot");
+#if HAS_LL
+      if (is_signed) CHECK(g_v.type_ == VT_INT64 && g_ext.asInt64 == sv, "signed integer beyond int32: Int64 in the extension slot with that value");
+      if (is_unsigned) CHECK(g_v.type_ == VT_UINT64 && g_ext.asUint64 == uv, "unsigned integer beyond uint32: Uint64 in the extension slot with that value");
+#else
+      CHECK(!is_signed && !is_unsigned, "without 64-bit integer support no integer goes to an extension slot");
+#endif
+#if HAS_DOUBLE
+      if (kind == 6) CHECK(g_v.type_ == VT_DOUBLE && memcmp(&g_ext.asDouble, &dv, 8) == 0, "double not representable as float: Double in the extension slot, bit for bit");
+#endif
+    }
+  }
+}
+/* toArray / toObject (member: on a null variant; static: clear() first), string setters, setRawString(serialized) */
+void h_vset_other(void) {
+  mk_variant();
+  unsigned kind = in_u8();
+  __CPROVER_assume(kind < 9);
+  if (kind != 2 && kind != 3 && kind != 8) g_v.type_ = VT_NULL; /* member setters: precondition null */
+  VD v0 = g_v;
+  unsigned char t = g_v.type_;
+  _Bool owned = t == VT_RAW || t == VT_OWNED, ext = t == VT_UINT64 || t == VT_INT64 || t == VT_DOUBLE, coll = t == VT_OBJECT || t == VT_ARRAY;
+  struct SerializedValue_char_p sv;
+  sv.data_ = g_text; sv.size_ = in_u8() % 4;
+  void *r = 0;
+  switch (kind) {
+    case 0: r = VariantData__toArray__void(&g_v); break;
+    case 1: r = VariantData__toObject__void(&g_v); break;
+    case 2: r = VariantData__toArray__VariantData_p_ResourceManager_p(&g_v, &g_rm); break;
+    case 3: r = VariantData__toObject__VariantData_p_ResourceManager_p(&g_v, &g_rm); break;
+    case 4: VariantData__setRawString(&g_v, g_saved); break;
+    case 5: VariantData__setOwnedString(&g_v, g_saved); break;
+    case 6: VariantData__setLinkedString(&g_v, g_text); break;
+    case 7: VariantData__setRawString_char_p__SerializedValue_char_p_ResourceManager_p(&g_v, sv, &g_rm); break;
+    default: VariantData__setRawString_char_p__VariantData_p_SerializedValue_char_p_ResourceManager_p(&g_v, sv, &g_rm); break;
+  }
+  COVER(kind == 0); COVER(kind == 1); COVER(kind == 2 && owned); COVER(kind == 3 && coll); COVER(kind == 4); COVER(kind == 5); COVER(kind == 6);
+  COVER(kind == 7 && g_save_ok); COVER(kind == 7 && !g_save_ok); COVER(kind == 8 && ext && !g_save_ok);
+  CHECK(g_v.next_ == v0.next_, "a setter never writes next_");
+  CHECK(g_allocext_calls == 0, "no extension slot is requested");
+  if (kind == 2 || kind == 3 || kind == 8) { /* the static forms clear the old value first: same release discipline as clear() */
+    CHECK(g_deref_calls == (owned ? 1u : 0u) && g_freeext_calls == (ext ? 1u : 0u) && g_cclear_calls == (coll ? 1u : 0u), "C06: the old value is released exactly as clear() does");
+  } else CHECK(g_seq == 0, "member setters release nothing");
+  if (kind <= 3) {
+#ifdef CANARY_VSET_OTHER
+    CHECK(g_v.type_ == ((kind & 1) ? VT_OBJECT : VT_ARRAY) && kind != 3, "toArray/toObject set the container type");
+#else
+    CHECK(g_v.type_ == ((kind & 1) ? VT_OBJECT : VT_ARRAY), "toArray/toObject set the container type");
+#endif
+    CHECK(g_v.content_.asCollection.head_ == NSLOT && g_v.content_.asCollection.tail_ == NSLOT, "the new container is empty: head_ = tail_ = NULL_SLOT");
+    CHECK(r == (void *)&g_v.content_, "the container returned is the one inside the variant");
+  }
+  if (kind == 4) CHECK(g_v.type_ == VT_RAW && g_v.content_.asOwnedString == (void *)g_saved, "setRawString(node): raw string holding that node");
+  if (kind == 5) CHECK(g_v.type_ == VT_OWNED && g_v.content_.asOwnedString == (void *)g_saved, "setOwnedString(node): owned string holding that node");
+  if (kind == 6) CHECK(g_v.type_ == VT_LINKED && g_v.content_.asLinkedString == (void *)g_text, "setLinkedString(p): linked string keeping the address");
+  if (kind == 7 || kind == 8) {
+    CHECK(g_save_calls == 1 && g_save_arg.str_ == sv.data_ && g_save_arg.size_ == sv.size_, "the serialized value is saved once with its own size");
+    if (g_save_ok) CHECK(g_v.type_ == VT_RAW && g_v.content_.asOwnedString == (void *)g_saved, "saved: raw string holding the saved node");
+    else CHECK(g_v.type_ == VT_NULL, "C05: when the string cannot be saved the variant is null");
+  }
+}
+#endif
+
+/* ===================================================================================================================
+ * unit coll_resmgr: ResourceManager::allocVariant / allocExtension / freeVariant / freeExtension / getVariant / getExtension over
+ * MemoryPoolList by contract (allocSlot: poollist_alloc/allocSlot_dispatch_* ; freeSlot, getSlot: poollist/list_*) and
+ * VariantData::clear by contract (coll_variant/vclear).  These obligations prove the contracts the stubs above rely on. */
+#ifdef U_RESMGR
+typedef struct Slot_ResourceManager__SlotData RSlot;
+typedef struct Slot_VariantData VSlot;
+static struct ResourceManager g_rm;
+static union ResourceManager__SlotData g_sd;
+static slotid_t g_sd_id;
+static _Bool g_as_ok;
+static unsigned g_seq, g_as_calls, g_fs_calls, g_gs_calls, g_vc_calls, g_fs_at, g_vc_at, g_gs_at;
+static RSlot g_fs_arg;
+static slotid_t g_gs_arg;
+RSlot MemoryPoolList_ResourceManager__SlotData__allocSlot(struct MemoryPoolList_ResourceManager__SlotData *self, struct Allocator *allocator) {
+  RSlot r;
+  CHECK(self == &g_rm.variantPools_ && allocator == g_rm.allocator_, "slots come from the document's pool list with the document's allocator");
+  g_as_calls++; ++g_seq;
+  r.ptr_ = g_as_ok ? &g_sd : (union ResourceManager__SlotData *)0;
+  r.id_ = g_as_ok ? g_sd_id : NSLOT;
+  return r;
+}
+void MemoryPoolList_ResourceManager__SlotData__freeSlot(struct MemoryPoolList_ResourceManager__SlotData *self, RSlot slot) {
+  CHECK(self == &g_rm.variantPools_, "slots return to the document's pool list");
+  g_fs_calls++; g_fs_at = ++g_seq;
+  g_fs_arg = slot;
+}
+union ResourceManager__SlotData *MemoryPoolList_ResourceManager__SlotData__getSlot(struct MemoryPoolList_ResourceManager__SlotData *self, slotid_t id) {
+  CHECK(self == &g_rm.variantPools_, "ids are resolved in the document's pool list");
+  g_gs_calls++; g_gs_at = ++g_seq;
+  g_gs_arg = id;
+  return id == NSLOT ? (union ResourceManager__SlotData *)0 : &g_sd; /* contract: getSlot(NULL_SLOT) == null */
+}
+void VariantData__clear__ResourceManager_p(VD *self, struct ResourceManager *resources) {
+  CHECK(self == &g_sd.variant && resources == &g_rm, "the variant being released is cleared with its own resource manager");
+  g_vc_calls++; g_vc_at = ++g_seq;
+  self->type_ = VT_NULL;
+}
+static struct Allocator g_allocator;
+static void mk_rm(void) {
+  g_rm.allocator_ = &g_allocator;
+  g_rm.overflowed_ = in_bool();
+  g_sd_id = (slotid_t)in_u32();
+  __CPROVER_assume(g_sd_id != NSLOT);
+  havoc_slot(&g_sd.variant);
+  g_as_ok = in_bool();
+}
+void h_rm_alloc(void) {
+  mk_rm();
+  _Bool ov0 = g_rm.overflowed_;
+  _Bool ext = in_bool();
+  VSlot v; struct Slot_VariantExtension x;
+  v.ptr_ = 0; v.id_ = 0; x.ptr_ = 0; x.id_ = 0;
+  VD before = g_sd.variant;
+  if (ext) x = ResourceManager__allocExtension(&g_rm);
+  else v = ResourceManager__allocVariant(&g_rm);
+  COVER(ext && g_as_ok); COVER(ext && !g_as_ok); COVER(!ext && g_as_ok); COVER(!ext && !g_as_ok && !ov0);
+  CHECK(g_as_calls == 1 && g_fs_calls == 0 && g_gs_calls == 0 && g_vc_calls == 0, "exactly one slot is requested, nothing else happens");
+  if (!g_as_ok) {
+#ifdef CANARY_RM_ALLOC
+    CHECK(g_rm.overflowed_ == 1 && ext, "C05: a null slot sets overflowed()");
+#else
+    CHECK(g_rm.overflowed_ == 1, "C05: a null slot sets overflowed()");
+#endif
+    CHECK(ext ? (x.ptr_ == 0 && x.id_ == NSLOT) : (v.ptr_ == 0 && v.id_ == NSLOT), "C05: and the null slot is returned");
+    CHECK(slot_same(&g_sd.variant, &before), "nothing is written");
+  } else {
+    CHECK(g_rm.overflowed_ == ov0, "success leaves overflowed() as it was (never reset here)");
+    if (ext) {
+      CHECK(x.ptr_ == &g_sd.extension && x.id_ == g_sd_id, "allocExtension returns the slot's address and id");
+    } else {
+      CHECK(v.ptr_ == &g_sd.variant && v.id_ == g_sd_id, "allocVariant returns the slot's address and id");
+      CHECK(g_sd.variant.type_ == VT_NULL && g_sd.variant.next_ == NSLOT, "a VariantData is constructed in the slot: null, next NULL_SLOT");
+    }
+  }
+}
+void h_rm_free(void) {
+  mk_rm();
+  _Bool ov0 = g_rm.overflowed_;
+  _Bool ext = in_bool();
+  if (ext) ResourceManager__freeExtension(&g_rm, g_sd_id);
+  else {
+    VSlot v;
+    v.ptr_ = &g_sd.variant; v.id_ = g_sd_id;
+    ResourceManager__freeVariant(&g_rm, v);
+  }
+  COVER(ext); COVER(!ext);
+  CHECK(g_fs_calls == 1 && g_fs_arg.ptr_ == &g_sd && g_fs_arg.id_ == g_sd_id, "C06: exactly that slot (address and id) is pushed on the free list, once");
+  if (ext) CHECK(g_vc_calls == 0 && g_gs_calls == 1 && g_gs_arg == g_sd_id, "freeExtension resolves the id once and clears nothing");
+  else {
+#ifdef CANARY_RM_FREE
+    CHECK(g_vc_calls == 1 && g_vc_at > g_fs_at, "freeVariant clears the variant BEFORE the slot goes to the free list");
+#else
+    CHECK(g_vc_calls == 1 && g_vc_at < g_fs_at, "freeVariant clears the variant BEFORE the slot goes to the free list");
+#endif
+  }
+  CHECK(g_as_calls == 0 && g_rm.overflowed_ == ov0, "releasing requests no slot and does not touch overflowed()");
+}
+void h_rm_get(void) {
+  mk_rm();
+  _Bool ov0 = g_rm.overflowed_;
+  _Bool ext = in_bool(), ask_null = in_bool();
+  VD before = g_sd.variant;
+  void *r;
+  __CPROVER_assume(!(ext && ask_null)); /* getExtension precondition: the id of an extension slot (VariantData::getExtension tests ExtensionBit) */
+  if (ext) r = ResourceManager__getExtension(&g_rm, g_sd_id);
+  else r = ResourceManager__getVariant(&g_rm, ask_null ? NSLOT : g_sd_id);
+  COVER(ext); COVER(!ext && ask_null); COVER(!ext && !ask_null);
+#ifdef CANARY_RM_GET
+  CHECK(r == (ask_null ? (void *)0 : (void *)&g_sd) && !ext, "getVariant/getExtension(id) is the slot designated by id; getVariant(NULL_SLOT) == null");
+#else
+  CHECK(r == (ask_null ? (void *)0 : (void *)&g_sd), "getVariant/getExtension(id) is the slot designated by id; getVariant(NULL_SLOT) == null");
+#endif
+  CHECK(g_gs_calls == 1 && g_gs_arg == (ask_null ? NSLOT : g_sd_id), "the id is resolved once, unchanged");
+  CHECK(g_as_calls == 0 && g_fs_calls == 0 && g_vc_calls == 0 && g_rm.overflowed_ == ov0 && slot_same(&g_sd.variant, &before), "lookups are read-only");
+}
+#endif
+
+/* ===================================================================================================================
+ * unit coll_dispatch: the VariantData front of the collection operations: which container (if any) the operation is
+ * forwarded to, and what happens to a variant that is null / of another kind.  ArrayData / ObjectData / CollectionData
+ * callees by contract (units coll_array, coll_object, coll_core, coll_loops); a null container pointer makes them no-ops
+ * returning null (coll_array/addElement COVER null_array, getElement_le4, removeElement_le4). */
+#ifdef U_DISPATCH
+static struct ResourceManager g_rm;
+static VD g_v, g_ret;
+static unsigned g_calls, g_callee;
+static void *g_cont;
+static unsigned long g_index, g_num;
+static struct SizedRamString g_key, g_key_seen;
+static char g_keytext[3] = {'k', 'y', 0};
+static VD *rec(unsigned callee, void *cont, struct ResourceManager *r) {
+  CHECK(r == &g_rm, "the callee gets the document's resource manager");
+  g_calls++; g_callee = callee; g_cont = cont;
+  return cont ? &g_ret : (VD *)0;
+}
+VD *ArrayData__addElement__ArrayData_p_ResourceManager_p(struct ArrayData *a, struct ResourceManager *r) { return rec(1, a, r); }
+VD *ArrayData__getOrAddElement(struct ArrayData *a, unsigned long i, struct ResourceManager *r) { g_index = i; return rec(2, a, r); }
+VD *ObjectData__getOrAddMember_SizedRamString(struct ObjectData *o, struct SizedRamString k, struct ResourceManager *r) { g_key_seen = k; return rec(3, o, r); }
+VD *ArrayData__getElement__ArrayData_p_ulong_ResourceManager_p(struct ArrayData *a, unsigned long i, struct ResourceManager *r) { g_index = i; return rec(4, a, r); }
+VD *ObjectData__getMember_SizedRamString__ObjectData_p_SizedRamString_ResourceManager_p(struct ObjectData *o, struct SizedRamString k, struct ResourceManager *r) { g_key_seen = k; return rec(5, o, r); }
+void ArrayData__removeElement__ArrayData_p_ulong_ResourceManager_p(struct ArrayData *a, unsigned long i, struct ResourceManager *r) { g_index = i; rec(6, a, r); }
+void ObjectData__removeMember_SizedRamString__ObjectData_p_SizedRamString_ResourceManager_p(struct ObjectData *o, struct SizedRamString k, struct ResourceManager *r) { g_key_seen = k; rec(7, o, r); }
+unsigned long CollectionData__nesting(struct CollectionData *c, struct ResourceManager *r) { rec(8, c, r); return g_num; }
+unsigned long CollectionData__size(struct CollectionData *c, struct ResourceManager *r) { rec(9, c, r); return g_num; }
+static const unsigned char k_types[] = {VT_NULL, VT_RAW, VT_LINKED, VT_OWNED, VT_BOOL, VT_UINT32, VT_INT32, VT_FLOAT, VT_UINT64, VT_INT64, VT_DOUBLE, VT_OBJECT, VT_ARRAY};
+void h_dispatch(void) {
+  unsigned ti = in_u8();
+  __CPROVER_assume(ti < sizeof k_types);
+  havoc_slot(&g_v);
+  g_v.type_ = k_types[ti];
+  VD v0 = g_v;
+  unsigned char t = g_v.type_;
+  unsigned op = in_u8();
+  __CPROVER_assume(op >= 1 && op <= 9);
+  unsigned long index = in_u64();
+  g_num = in_u64();
+  _Bool null_key = in_bool();
+  g_key.str_ = null_key ? (char *)0 : g_keytext; g_key.size_ = null_key ? 0 : 2;
+  VD *r = 0;
+  unsigned long n = 0;
+  switch (op) {
+    case 1: r = VariantData__addElement__VariantData_p_ResourceManager_p(&g_v, &g_rm); break;
+    case 2: r = VariantData__getOrAddElement(&g_v, index, &g_rm); break;
+    case 3: r = VariantData__getOrAddMember_SizedRamString(&g_v, g_key, &g_rm); break;
+    case 4: r = VariantData__getElement__VariantData_p_ulong_ResourceManager_p(&g_v, index, &g_rm); break;
+    case 5: r = VariantData__getMember_SizedRamString(&g_v, g_key, &g_rm); break;
+    case 6: VariantData__removeElement__VariantData_p_ulong_ResourceManager_p(&g_v, index, &g_rm); break;
+    case 7: VariantData__removeMember_SizedRamString(&g_v, g_key, &g_rm); break;
+    case 8: n = VariantData__nesting__VariantData_p_ResourceManager_p(&g_v, &g_rm); break;
+    default: n = VariantData__size__VariantData_p_ResourceManager_p(&g_v, &g_rm); break;
+  }
+  _Bool wants_array = op == 1 || op == 2 || op == 4 || op == 6, wants_object = op == 3 || op == 5 || op == 7;
+  _Bool creates = (op == 1 || op == 2 || (op == 3 && !null_key)) && t == VT_NULL; /* adding to a null variant turns it into the container */
+  _Bool is_cont = (wants_array && t == VT_ARRAY) || (wants_object && t == VT_OBJECT) || ((op == 8 || op == 9) && (t == VT_ARRAY || t == VT_OBJECT));
+  COVER(op == 1 && t == VT_NULL); COVER(op == 1 && t == VT_ARRAY); COVER(op == 1 && t == VT_OBJECT); COVER(op == 2 && t == VT_INT32); COVER(op == 3 && null_key);
+  COVER(op == 3 && t == VT_NULL && !null_key); COVER(op == 5 && t == VT_OBJECT); COVER(op == 7 && t == VT_ARRAY); COVER(op == 8 && t == VT_ARRAY); COVER(op == 9 && t == VT_OBJECT); COVER(op == 9 && t == VT_OWNED);
+  if (creates) {
+    CHECK(g_v.type_ == (op == 3 ? VT_OBJECT : VT_ARRAY) && g_v.content_.asCollection.head_ == NSLOT && g_v.content_.asCollection.tail_ == NSLOT, "adding to a null variant first makes it an empty array / object");
+    CHECK(g_calls == 1 && g_cont == (void *)&g_v.content_ && r == &g_ret, "and then forwards to that container");
+  } else {
+#ifdef CANARY_DISPATCH
+    CHECK(slot_same(&g_v, &v0) && !(op == 2 && t == VT_BOOL), "otherwise the variant itself is not written (a value of another kind is never clobbered)");
+#else
+    CHECK(slot_same(&g_v, &v0), "otherwise the variant itself is not written (a value of another kind is never clobbered)");
+#endif
+    if (is_cont && !(op == 3 && null_key)) {
+      CHECK(g_calls == 1 && g_cont == (void *)&g_v.content_, "a container of the right kind: the operation is forwarded to it, once");
+      if (op <= 5) CHECK(r == &g_ret, "and its result is returned");
+      if (op == 8) CHECK(n == g_num, "nesting() of a container is CollectionData::nesting()");
+      if (op == 9) CHECK(n == (t == VT_OBJECT ? g_num / 2 : g_num), "size(): slots for an array, slots / 2 (pairs) for an object");
+    } else {
+      CHECK(g_cont == 0 && r == 0 && n == 0, "null / wrong kind / null key: no container is touched; null, 0 or nothing is returned");
+    }
+  }
+  CHECK(g_v.next_ == v0.next_, "next_ is never written");
+  if (g_calls && (op == 2 || op == 4 || op == 6)) CHECK(g_index == index, "the index is forwarded unchanged");
+  if (g_calls && wants_object) CHECK(g_key_seen.str_ == g_key.str_ && g_key_seen.size_ == g_key.size_, "the key is forwarded unchanged");
+}
+#endif
+
+/* ===================================================================================================================
  * unit coll_loops: the three list traversals of CollectionData closed by loop contracts => lists of ARBITRARY length (U).
  * Big store: g_cnt <= NULL_SLOT slots (symbolic), id == index.  The ordered-list model is carried by ghost arrays:
  *   g_rank[id]  steps to the end of the list (acyclicity, termination)      g_pos[id]  position in the list, g_len its length
@@ -483,7 +1479,7 @@ VD *ResourceManager__getVariant(struct ResourceManager *self, slotid_t id) {
   slotid_t nx = g_store[id].next_;
   __CPROVER_assume(nx == NSLOT || nx < g_cnt);
   __CPROVER_assume(nx == NSLOT || g_rank[nx] < g_rank[id]);
-  __CPROVER_assume(g_rank[id] < 0x7FFFFFFFu && g_pos[id] < g_cnt);
+  __CPROVER_assume(g_rank[id] < 0x7FFFFFFFu && g_pos[id] < g_cnt && g_pos[id] < g_len);
   __CPROVER_assume(nx == NSLOT ? g_pos[id] + 1 == g_len : g_pos[nx] == g_pos[id] + 1);
   __CPROVER_assume(!g_member[id] || nx == NSLOT || g_member[nx]);
   if (g_dist[id] == 0) __CPROVER_assume(id == g_w && (nx == NSLOT || g_dist[nx] == DIST_NONE));
@@ -501,6 +1497,7 @@ void ResourceManager__freeVariant(struct ResourceManager *self, VSlot v) {
 }
 unsigned long VariantData__nesting__ResourceManager_p(VD *self, struct ResourceManager *resources) { return in_u64(); }
 static void mk_big(void) {
+  g_free_calls = 0; g_w_frees = 0; g_u_frees = 0; /* (goto-instrument --apply-loop-contracts loses the zero initialisers of ghosts named in assigns clauses) */
   g_cnt = in_u64();
   __CPROVER_assume(g_cnt >= 1 && g_cnt <= (uint64_t)NSLOT && g_cnt <= BIG_MAX);
   g_store = malloc(g_cnt * sizeof(VD));
@@ -510,12 +1507,13 @@ static void mk_big(void) {
   g_member = malloc(g_cnt * sizeof(_Bool));
   __CPROVER_assume(g_store && g_dist && g_rank && g_pos && g_member);
   g_w = in_u64(); g_u = in_u64();
+  g_len = in_u64(); /* the list's length in the model (harnesses about size()/at() pin it to the head) */
   __CPROVER_assume(g_w < g_cnt && g_u < g_cnt);
   memcpy(&g_u_bits, &g_store[g_u].content_, sizeof g_u_bits);
   g_u_type = g_store[g_u].type_;
   g_u_next = g_store[g_u].next_;
 }
-static _Bool u_same(void) { return g_store[g_u].content_.asLinkedString == g_u_bits && g_store[g_u].type_ == g_u_type && g_store[g_u].next_ == g_u_next; }
+static _Bool u_same(void) { return *(unsigned long *)&g_store[g_u].content_ == g_u_bits && g_store[g_u].type_ == g_u_type && g_store[g_u].next_ == g_u_next; }
 
 /* getPreviousSlot(target): target = slot g_w, linked in the list (g_dist[head] is a number); any list length */
 void h_getPreviousSlot_u(void) {
@@ -543,7 +1541,6 @@ void h_size_u(void) {
   struct CollectionData c;
   c.head_ = (slotid_t)in_u32(); c.tail_ = (slotid_t)in_u32();
   struct CollectionData c0 = c;
-  g_len = in_u64();
   __CPROVER_assume(c.head_ == NSLOT ? g_len == 0 : (c.head_ < g_cnt && g_pos[c.head_] == 0));
   unsigned long n = CollectionData__size(&c, &g_rm);
   COVER(n == 0); COVER(n > 5);
@@ -553,6 +1550,28 @@ void h_size_u(void) {
   CHECK(n == g_len, "size() == number of linked slots");
 #endif
   CHECK(u_same() && g_free_calls == 0 && c.head_ == c0.head_ && c.tail_ == c0.tail_, "size() is read-only (arbitrary witness slot unchanged, nothing released)");
+}
+/* ArrayData::at(i) / getElement(i): the i-th slot of the list, a done iterator / null beyond the end; any length, any index */
+void h_at_u(void) {
+  mk_big();
+  struct ArrayData a;
+  a._b_CollectionData.head_ = (slotid_t)in_u32(); a._b_CollectionData.tail_ = (slotid_t)in_u32();
+  struct ArrayData a0 = a;
+  __CPROVER_assume(a._b_CollectionData.head_ == NSLOT ? g_len == 0 : (a._b_CollectionData.head_ < g_cnt && g_pos[a._b_CollectionData.head_] == 0));
+  g_idx0 = in_u64();
+  struct CollectionIterator it = ArrayData__at(&a, g_idx0, &g_rm);
+  VD *e = ArrayData__getElement__ulong_ResourceManager_p(&a, g_idx0, &g_rm);
+  COVER(it.slot_ == 0 && g_len > 5); COVER(it.slot_ != 0 && g_idx0 > 5); COVER(g_len == 0);
+#ifdef CANARY_AT_U
+  CHECK((it.slot_ != 0) == (g_idx0 < g_len) && g_idx0 != 9, "at(i) designates a slot iff i < size");
+#else
+  CHECK((it.slot_ != 0) == (g_idx0 < g_len), "at(i) designates a slot iff i < size");
+#endif
+  CHECK(it.slot_ == 0 || (it.currentId_ < g_cnt && it.slot_ == &g_store[it.currentId_] && g_pos[it.currentId_] == g_idx0), "at(i) designates the slot at position i of the list");
+  CHECK((e != 0) == (g_idx0 < g_len), "getElement(i) is null iff i >= size");
+  uint64_t k = e ? (uint64_t)(e - g_store) : 0;
+  CHECK(e == 0 || (k < g_cnt && e == &g_store[k] && g_pos[k] == g_idx0), "getElement(i) is the slot at position i of the list");
+  CHECK(u_same() && g_free_calls == 0 && a._b_CollectionData.head_ == a0._b_CollectionData.head_ && a._b_CollectionData.tail_ == a0._b_CollectionData.tail_, "at()/getElement() are read-only");
 }
 /* clear(): every linked slot (witness g_w) released exactly once, every other slot (witness g_u) untouched; any length */
 void h_clear_u(void) {
